@@ -233,7 +233,7 @@ def _gen_libs(gd: Path) -> str | None:
     return None
 
 
-def gen_equiv_compile(workdir: Path, gen_name: str, gen_text, equiv_file: str, extra_allowed: set[str] = frozenset()) -> dict:
+def gen_equiv_compile(workdir: Path, gen_name: str, gen_text, equiv_file: str, extra_allowed: set[str] = frozenset(), extra_libs: tuple = ()) -> dict:
     """Write the generated module `gen_name` (text, or a callable returning text or (text, metadata); the callable may raise
     py2coq.Untranslatable) to <workdir>/gen/, compile it and the committed coq/gen/<equiv_file> against it, and read every
     `Print Assumptions`.  Never raises; `broken` lists what does not hold."""
@@ -251,7 +251,7 @@ def gen_equiv_compile(workdir: Path, gen_name: str, gen_text, equiv_file: str, e
         res["text"], res["meta"] = got if isinstance(got, tuple) else (got, None)
     except Exception as e:  # Untranslatable: the source left the translated subset (or the function is gone)
         broken.append(f"{equiv_file}: all of {thms}: the source could not be translated: {e}")
-    bad = scan_forbidden([eq, *(GEN / f for f in GEN_LIBS)]) if eq.exists() else [f"coq/gen/{equiv_file} is missing"]
+    bad = scan_forbidden([eq, *(GEN / f for f in (*GEN_LIBS, *extra_libs))]) if eq.exists() else [f"coq/gen/{equiv_file} is missing"]
     if res["text"] is not None:
         bad += [f"generated {gen_name}.v: forbidden `{m.group(0)}`" for m in FORBIDDEN_RE.finditer(strip_coq_comments(res["text"]))]
     broken.extend(bad)
@@ -263,7 +263,9 @@ def gen_equiv_compile(workdir: Path, gen_name: str, gen_text, equiv_file: str, e
     if not broken:
         (gd / f"{gen_name}.v").write_text(res["text"])
         shutil.copy(eq, gd / equiv_file)
-        for f, what in ((f"{gen_name}.v", "generated from the current source"), (equiv_file, "equivalence proofs")):
+        for f in extra_libs:        # prelude files that use types of a hand model: compiled per check (the model's .vo exist by then)
+            shutil.copy(GEN / f, gd / f)
+        for f, what in (*((f, "prelude") for f in extra_libs), (f"{gen_name}.v", "generated from the current source"), (equiv_file, "equivalence proofs")):
             r = subprocess.run(["timeout", "600", "coqc", *flags, str(gd / f)], capture_output=True, text=True, cwd=gd)   # .lia.cache stays in the workdir
             out = r.stdout + r.stderr
             if r.returncode != 0:
@@ -373,13 +375,13 @@ class Check:
         return details
 
     # ---- translator tie -----------------------------------------------------------
-    def gen_equiv(self, gen_name: str, gen_text, equiv_file: str) -> dict:
+    def gen_equiv(self, gen_name: str, gen_text, equiv_file: str, extra_libs: tuple = ()) -> dict:
         """Second tie for pure discrete functions: `gen_text` is the Gallina module regenerated from the CURRENT Python source
         (a str, or a callable returning the text or (text, metadata) - it may raise py2coq.Untranslatable); the committed
         coq/gen/<equiv_file> proves it equal to the hand-written model.  Adds the equivalence theorems to the obligations and
         records coverage["translator"].  Never raises: returns {"ok": False, "broken": [...]} and the harness goes on with its
         correspondence run; call `gen_equiv_verdict()` at the end (finish() does it as a safety net)."""
-        r = gen_equiv_compile(self.workdir, gen_name, gen_text, equiv_file)
+        r = gen_equiv_compile(self.workdir, gen_name, gen_text, equiv_file, extra_libs=extra_libs)
         cov = self.coverage
         cov["obligations"] = cov.get("obligations", 0) + len(r["theorems"])
         cov["discharged"] = cov.get("discharged", 0) + sum(1 for p in r["per_theorem"] if p["ok"])
